@@ -1,5 +1,8 @@
 """impl runner: one AT&T program per line (instructions separated by ';'), emulated on a fresh x86_machine;
 prints 'eip | dump_id | dump_mem' (state dumps as the library renders them)."""
+import os, sys
+REAL = os.fdopen(os.dup(1), 'w')
+sys.stdout = open(os.devnull, 'w')      # the PLY lexers print 'Illegal character' to stdout
 import sys, os
 sys.setrecursionlimit(20000)
 from miasmx.arch.ia32_arch import x86mnemo
@@ -21,4 +24,4 @@ for l in sys.stdin:
     if not l: continue
     try: out.append(run(l))
     except Exception as e: out.append('X %s %s' % (type(e).__name__, str(e)[:80].replace('\n', ' ')))
-sys.stdout.write('\n'.join(out) + '\n')
+REAL.write('\n'.join(out) + '\n'); REAL.flush()
